@@ -138,7 +138,9 @@ RunBody(P, body, env, st, ctx) ==
         b   == ExecB(P, body, env, st1, ctx)
         ds  == Last(b.st.dstk)
         st2 == RunDefers(P, ds, [b.st EXCEPT !.dstk = Front(@), !.astk = Front(@)])
-    IN [st |-> [st2 EXCEPT !.depth = st.depth], ctl |-> b.ctl]
+    \* recd tells the caller (the unwinding step that invoked this body as a deferred
+    \* call) whether THIS body recovered; what its own deferred calls did is their affair
+    IN [st |-> [st2 EXCEPT !.depth = st.depth, !.recd = b.st.recd], ctl |-> b.ctl]
 
 (* call of a declared function: new cells for the parameter and the results.    *)
 (* [vs, st] - the results are read AFTER the deferred calls have run.           *)
@@ -246,7 +248,7 @@ ExecS(P, s, env, st0, ctx) ==
             LET v == EvalE(P, s.e, env, st) IN R(env, IF Ok(v.st) THEN Emit1(v.st, <<"p", s.id, v.v>>) ELSE v.st)
       [] s.k = "printg" ->    \* all globals
             R(env, Emit1(st, <<"g", st.cells[1], st.cells[2], st.cells[3], st.cells[4], st.cells[5], st.cells[6]>>))
-      [] s.k = "discard" ->   \* CALL as a statement ( f(e)  or  _ = c() )
+      [] s.k \in {"discard", "blankcall"} ->   \* CALL as a statement:  f(e) / c()  or  _ = c()
             R(env, EvalE(P, s.e, env, st).st)
       [] s.k = "cs" ->        \* call statement f(e)
             LET a == EvalArgs(P, s.args, env, st) IN
